@@ -181,16 +181,29 @@ def run(tier, seed):
             # the engine variants on ONE engine object: asked twice, and again after a parse and after a conversion
             q = [line("e_meta", 0, "has"), line("e_meta", 0, "keys"), line("e_meta", 0, "val", sx("title")), line("e_meta", 0, "val", sx("Author")), line("e_meta", 0, "val", sx("nokey"))]
             s += [line("e_new", 0, d, CLISTD & ~E["TRANSCLUDE"], 0)] + q + q + [line("e_parse", 0)] + q + [line("e_conv", 0, docs.FMT["html"])] + q + [line("e_free", 0)]
+            # a key is added: the string family on the new text is the reference; engines that were never parsed / parsed / converted before the update must
+            # answer the same -- asked for the keys FIRST (the has-metadata query re-scans and would hide a stale answer)
+            q2 = [line("meta", "X", d + "U", "keys"), line("meta", "X", d + "U", "val", sx("revision")), line("meta", "X", d + "U", "val", sx("title")), line("meta", "X", d + "U", "has")]
+            s += [line("meta", "s", d, "upd", sx("Revision"), sx("7 b"), d + "U")] + [ln.replace("\tX\t", "\ts\t") for ln in q2] + [ln.replace("\tX\t", "\td\t") for ln in q2]
+            qe = [line("e_meta", 0, "keys"), line("e_meta", 0, "val", sx("revision")), line("e_meta", 0, "val", sx("title")), line("e_meta", 0, "has")]
+            for pre in ([], [line("e_parse", 0)], [line("e_conv", 0, docs.FMT["html"])], [line("e_meta", 0, "keys")]):
+                s += [line("e_new", 0, d, CLISTD & ~E["TRANSCLUDE"], 0)] + pre + [line("e_meta", 0, "upd", sx("Revision"), sx("7 b"))] + qe + [line("e_free", 0)]
             msegs.append(s)
         mres = run_harness(exe, msegs)
         for d, r in zip(dpool, mres):
             if r["status"] != "ok":
                 problems.append(("crash", (d, "meta", ""), r)); continue
             trace.append(dict(e="reset"))
+            eupd = False
             for ev in r["events"]:
+                if ev.get("e") == "eng" and ev.get("op") == "new": eupd = False
                 if ev.get("e") != "meta": continue
+                if ev["op"] == "upd":
+                    if ev["fam"] == "e_reuse": eupd = True
+                    continue
+                after = "+upd" if (ev.get("src") == d + "U" or (ev["fam"] == "e_reuse" and eupd)) else ""
                 val = json.dumps([ev["has"], ev["end"]]) if ev["op"] == "has" else json.dumps(ev.get("res"))
-                trace.append(dict(e="conv", fam="meta_" + ev["fam"], src=d, key="%s|meta|%s|%s" % (d, ev["op"], ev["key"]), digest=val, det=True, null=False, srcsame=ev["srcsame"],
+                trace.append(dict(e="conv", fam="meta_" + ev["fam"], src=d, key="%s%s|meta|%s|%s" % (d, after, ev["op"], ev["key"]), digest=val, det=True, null=False, srcsame=ev["srcsame"],
                                   inplace=False, wrote=False, needfile=False, rng=0, rand=0, len=0))
         acc, rejected, states, info = tlc.validate_trace("SessionTrace", os.path.join(VERIF, "spec", "SessionTrace.cfg"), trace, max_rejects=40)
     finally:
